@@ -44,7 +44,11 @@ def run(cmd, cwd=None, inp=None, timeout=None, env=None):
     e.setdefault("CARGO_NET_OFFLINE", "true")
     if env:
         e.update(env)
-    p = subprocess.run(cmd, cwd=cwd, input=inp, capture_output=True, text=True, timeout=timeout, env=e)
+    try:
+        p = subprocess.run(cmd, cwd=cwd, input=inp, capture_output=True, text=True, timeout=timeout, env=e)
+    except subprocess.TimeoutExpired as ex:
+        out = ex.stdout.decode(errors="replace") if isinstance(ex.stdout, bytes) else (ex.stdout or "")
+        return 124, out, "timed out after %ss: %s" % (timeout, " ".join(cmd[:3]))
     return p.returncode, p.stdout, p.stderr
 
 
